@@ -576,20 +576,64 @@ def check_drop_only_if_none(ctx, rule: str):
     ok = len(assigns) == 2 and any(isinstance(a.value, ast.Constant) and a.value.value is None for a in assigns) and any(isinstance(a.value, ast.Call) and call_name(a.value) == "_get_best_combination" for a in assigns)
     ctx.ob(rule, construct(fi, "best_combination is the result of _get_best_combination"), ok, loc(fi), "" if ok else str(vals))
     fg = ctx.repo.find_function(f"{F_BC}::BaseCarver._get_best_combination")
-    cfgg = cfg_of(ctx, fg)
-    rets = [r for r in walk_no_nested(fg.node) if isinstance(r, ast.Return) and r.value is not None]
-    ok = len(rets) == 1
+    flow, err = _stage_flow(fg)
+    c3 = construct(fg, "a combination is returned iff the last search stage found a viable association")
+    c4 = construct(fg, "missing-value stage runs iff dropna and the feature has NaN and stage 1 succeeded")
+    if flow is None:
+        ctx.ob(rule, c3, None, loc(fg), err)
+        ctx.ob(rule, c4, None, loc(fg), err)
+        return
+    # every path: what is returned against the outcome of the last stage that ran on it
+    bad = None
+    for o in flow.outcomes:
+        last = o.path.calls[-1] if o.path.calls else None
+        expected = "value" if (last is not None and last[1]) else "none"
+        if o.kind != expected:
+            bad = (o, expected)
+            break
+    shape = all(isinstance(o.node.value, ast.Tuple) and o.node.value.elts and unparse(o.node.value.elts[0]) == "order" for o in flow.outcomes if o.kind == "value" and o.node is not None and not isinstance(o.node.value, ast.Name))
+    ctx.ob(rule, c3, bad is None and shape and any(o.kind == "value" for o in flow.outcomes), loc(fg, bad[0].node if bad and bad[0].node is not None else None),
+           "" if bad is None else f"on the path [{'; '.join(bad[0].path.trace)}] the function returns {'a combination' if bad[0].kind == 'value' else 'None'} although the last stage {'found none' if expected_none(bad) else 'found one'}")
+    # stage 2 = the call with dropna=True
+    idx2 = [i for i, c in enumerate(flow.calls) if const_value(kwarg(c, "dropna"), False) is True]
+    idx1 = [i for i, c in enumerate(flow.calls) if i not in idx2]
+    ok = len(idx2) == 1 and len(idx1) == 1
+    why = "" if ok else f"{len(flow.calls)} search stage call(s) found, {len(idx2)} with dropna=True"
     if ok:
-        conds = _flatten_conditions(cfgg.path_conditions(rets[0]))
-        ok = [(cmp_canon(t), pol) for t, pol in conds] == [(("best_association", "is not", "None"), True)] and isinstance(rets[0].value, ast.Tuple) and unparse(rets[0].value.elts[0]) == "order"
-    ctx.ob(rule, construct(fg, "a combination is returned iff the last search stage found a viable association"), ok, loc(fg))
-    # stage 2 (missing values) runs on the stage-1 result, only when dropna and the feature has NaN
-    ifs = [n for n in walk_no_nested(fg.node) if isinstance(n, ast.If) and "self.dropna" in unparse(n.test)]
-    ok = False
-    if len(ifs) == 1:
-        cj = {unparse(c).replace(" ", "") for c in conjuncts(ifs[0].test)}
-        ok = cj == {"self.dropna", "self.str_naninorder", "best_associationisnotNone"}
-    ctx.ob(rule, construct(fg, "missing-value stage runs iff dropna and the feature has NaN and stage 1 succeeded"), ok, loc(fg))
+        s1, s2 = idx1[0], idx2[0]
+        for o in flow.outcomes:
+            ran = [c for c in o.path.calls]
+            for k, (i, found, facts) in enumerate(ran):
+                if i == s2:
+                    prev = ran[k - 1] if k else None
+                    if prev is None or prev[0] != s1 or not prev[1]:
+                        ok, why = False, f"path [{'; '.join(o.path.trace)}]: the missing-value stage runs although stage 1 found no association"
+                    if facts.get("self.dropna") is not True or facts.get("self.str_nan in order") is not True:
+                        ok, why = False, f"path [{'; '.join(o.path.trace)}]: the missing-value stage runs without `self.dropna and self.str_nan in order` being established"
+            if ran and ran[-1][0] == s1 and ran[-1][1]:
+                f = o.path.facts
+                if f.get("self.dropna") is not False and f.get("self.str_nan in order") is not False:
+                    ok, why = False, f"path [{'; '.join(o.path.trace)}]: stage 1 succeeded, dropna and a missing-value modality, but the missing-value stage is skipped"
+    ctx.ob(rule, c4, ok, loc(fg), why)
+
+
+def expected_none(bad) -> bool:
+    return bad[1] == "none"
+
+
+_FLOW_CACHE: dict = {}
+
+
+def _stage_flow(fg):
+    from ..optflow import OptFlow, Undecided
+
+    key = id(fg.node)
+    if key not in _FLOW_CACHE:
+        try:
+            _FLOW_CACHE[key] = (OptFlow(fg.node, "_get_best_association").run(), "")
+        except Undecided as exc:
+            _FLOW_CACHE[key] = (None, f"optional-result flow not decided: {exc}")
+    return _FLOW_CACHE[key]
 
 
 # ---------------------------------------------------------------------------------------------
@@ -664,18 +708,20 @@ def check_enum_bounds(ctx, rule: str):
 
 
 def check_stage_results(ctx, rule: str):
-    """Both search stages decide: the outcome of every _get_best_association call becomes the current
-    (best_association, order), so a failed missing-value stage drops the feature instead of silently
-    keeping the stage-1 carving with an untested NaN group."""
+    """Both search stages decide: when the missing-value stage runs and finds nothing, no combination
+    is returned (the feature is dropped) instead of silently keeping the stage-1 carving with an
+    untested NaN group.  Decided on the paths of _get_best_combination (acsa/optflow.py)."""
     fg = ctx.repo.find_function(f"{F_BC}::BaseCarver._get_best_combination")
-    cfg = cfg_of(ctx, fg)
-    cs = calls(fg, "_get_best_association")
-    ok = len(cs) == 2
-    for c in cs:
-        par = cfg.parent(c)
-        ok = ok and isinstance(par, ast.Assign) and isinstance(par.targets[0], ast.Tuple) and [unparse(e) for e in par.targets[0].elts] == ["best_association", "order"]
-    ctx.ob(rule, construct(fg, "the result of each search stage replaces (best_association, order)"), ok, loc(fg, cs[-1] if cs else None),
-           "" if ok else "a stage whose result is not assigned to best_association cannot make the search fail: a non-viable missing-value placement is kept")
+    flow, err = _stage_flow(fg)
+    c = construct(fg, "the result of each search stage replaces (best_association, order)")
+    if flow is None:
+        ctx.ob(rule, c, None, loc(fg), err)
+        return
+    idx2 = [i for i, cl in enumerate(flow.calls) if const_value(kwarg(cl, "dropna"), False) is True]
+    bad = [o for o in flow.outcomes if o.kind == "value" and o.path.calls and o.path.calls[-1][0] in idx2 and not o.path.calls[-1][1]]
+    reached = any(o.path.calls and o.path.calls[-1][0] in idx2 for o in flow.outcomes)
+    ctx.ob(rule, c, not bad and reached and len(flow.calls) == 2, loc(fg, bad[0].node if bad and bad[0].node is not None else None),
+           "" if not bad else f"path [{'; '.join(bad[0].path.trace)}]: the missing-value stage found nothing but a combination is returned: a non-viable missing-value placement is kept")
 
 
 def check_printer_raw(ctx, rule: str):
